@@ -52,7 +52,7 @@ theorem wellSpaced_sorted {lo total : Nat} : ∀ {toks : List Token}, Lex.WellSp
 theorem toksOK_of_lex (src : Text) (toks : List Token) (h : Lex.lexLine src = .ok toks) : ToksOK src.length toks := by
   obtain ⟨hw, tl, hl, hk, _, _⟩ := Lex.lexLine_token_spans src toks h
   have hne : toks ≠ [] := by intro h0; rw [h0] at hl; simp at hl
-  refine ⟨fun t ht => ?_, ?_, ?_, Lex.lexLine_numbers_fit src toks h, wellSpaced_sorted hw⟩
+  refine ⟨fun t ht => ?_, ?_, ?_, Lex.lexLine_numbers_fit src toks h, Lex.lexLine_tokens_ok src toks h, hne, wellSpaced_sorted hw⟩
   · have := Lex.wellSpaced_mem hw t ht; omega
   · have := wellSpaced_count hw hne; omega
   · intro i t hi hkind
@@ -116,9 +116,9 @@ theorem ruleTail_spans (input : List (List PItem)) (s : PS) (hi : Inv L s) : NoF
     · exact tokErr_ok _ s1 h1.inv
     · exact ruleEnv_spans _ _ s1 h1.inv
 
-theorem rule_spans (s : PS) (hi : Inv L s) : NoFuel L (rule s) := by
+theorem rule_spans (s : PS) (hi : Inv L s) (h0 : s.cur.kind ≠ .eol ∧ s.cur.kind ≠ .comment) : NoFuel L (rule s) := by
   unfold rule
-  refine Spec.bindN (getInput_spec s hi) (fun input s1 h1 => ?_)
+  refine Spec.bindN (getInput_spec s hi h0) (fun input s1 h1 => ?_)
   have h2 := expectArrow_le s1 h1.inv
   rcases he : expectArrow s1 with ⟨g, s2⟩
   rw [he] at h2
@@ -135,8 +135,11 @@ theorem parse_error_spans (toks : List Token) (hT : ToksOK L toks) (e : PErr) (h
   · rename_i t rest
     split at h
     · cases h
-    · have hi : Inv L ({ toks := t :: rest, pos := 0, cur := t } : PS) := ⟨hT, by simp, Or.inl rfl⟩
-      have := rule_spans _ hi
+    · rename_i hguard
+      have hi : Inv L ({ toks := t :: rest, pos := 0, cur := t } : PS) := ⟨hT, by simp, Or.inl rfl⟩
+      have h0 : t.kind ≠ .eol ∧ t.kind ≠ .comment := by
+        simp only [Bool.or_eq_true, decide_eq_true_eq, not_or] at hguard; exact hguard
+      have := rule_spans _ hi h0
       split at h
       · cases h
       · rename_i e' hx; cases h; rw [hx] at this; exact this
@@ -185,8 +188,6 @@ theorem parser_two_span_error_formats (src : Text) (e : PErr) (he : parseLine sr
 /-! Non-vacuity: lines the parser rejects with token and column errors, among them the made-up `Eol` after a comment -/
 example : (match parseLine ("a > e / _ ;; c".toList.map Char.toNat) with | .err e => some e | _ => none) = some ⟨"ExpectedUnderline", [(4, 5)]⟩ := by decide +kernel
 example : (match parseLine ("a e".toList.map Char.toNat) with | .err e => some e | _ => none) = some ⟨"ExpectedArrow", [(3, 4)]⟩ := by decide +kernel
-example : (match parseLine ("C=99999999999999999999 > 1".toList.map Char.toNat) with | .err e => some e | _ => none) = some ⟨"NumberTooBig", [(2, 22)]⟩ := by
-  decide +kernel
 example : (match parseLine ("a > e / (C)".toList.map Char.toNat) with | .err e => some e | _ => none) = some ⟨"ExpectedUnderline", [(11, 12)]⟩ := by
   decide +kernel
 example : (match parseLine ("(C) > e".toList.map Char.toNat) with | .err e => some e | _ => none) = some ⟨"OptLocError", [(0, 3)]⟩ := by
